@@ -150,8 +150,18 @@ def _removal_focus(R: Draw, g, rs, doc: dict):  # noqa: ANN001, ANN202
             if rs.allows_mark(tb["t"], name):
                 cur = rm.ref_add(rs, g.mark(R, name), cur)
         pieces.append(P.mk("text", {}, None, cur, "abcdef"))
+    first_mark = None
     for i in range(R.int(1 if pieces else 2, 3)):
-        marks = rm.ref_add(rs, g.mark(R, m), g.mark_set(R, tb["t"], 0.3))
+        mk0 = g.mark(R, m)
+        first_mark = first_mark or mk0
+        marks = rm.ref_add(rs, mk0, g.mark_set(R, tb["t"], 0.3))
+        if not rs.excludes(m, m) and R.bool(0.6):
+            # a type that does not exclude itself: a second mark of the same type, other attributes, on the SAME node
+            for _ in range(4):
+                mk1 = g.mark(R, m)
+                if mk1 != mk0:
+                    marks = rm.ref_add(rs, mk1, marks)
+                    break
         pieces.append(P.mk("text", {}, None, marks, R.choice(["xx", "y", "zzz"])))
     if "text" not in rx.first(rs.content[tb["t"]]):
         return None
@@ -166,8 +176,8 @@ def _removal_focus(R: Draw, g, rs, doc: dict):  # noqa: ANN001, ANN202
     start, size = spans[0]
     a = R.int(start + 1, start + size - 2)
     b = R.int(a, start + size - 1) if R.bool(0.3) else start + size - 1
-    how = R.weighted([("type", 5), ("all", 3), ("mark", 2)])
-    return doc2, {"op": "remove_mark", "from": a if R.bool(0.5) else start + 1, "to": b, "mark": g.mark(R, m) if how == "mark" else None, "type": m if how == "type" else None, "focus_type": m}
+    how = R.weighted([("type", 5), ("all", 3), ("mark", 4)])
+    return doc2, {"op": "remove_mark", "from": a if R.bool(0.5) else start + 1, "to": b, "mark": (first_mark if R.bool(0.7) else g.mark(R, m)) if how == "mark" else None, "type": m if how == "type" else None, "focus_type": m}
 
 
 def _exclusion_focus(R: Draw, g, rs, doc: dict):  # noqa: ANN001, ANN202
